@@ -1027,12 +1027,39 @@ func (c *Ctx) noLingeringWriteDeadline(rule string) {
 		}
 		return true, false
 	}
+	// a design in which every socket write installs its own deadline first leaves nothing behind for the next write:
+	// a lingering deadline matters only if some write site does not set one itself
+	cw := c.connWrites()
+	bareWrite := ""
+	for _, fn := range c.RepoFuncs("service") {
+		for _, b := range fn.Blocks {
+			for i, ins := range b.Instrs {
+				if !cw.is(ins) {
+					continue
+				}
+				if _, isWrapper := cw.wrappers[fn]; isWrapper {
+					continue
+				}
+				own := false
+				for _, b2 := range fn.Blocks {
+					for j, i2 := range b2.Instrs {
+						if s2, _ := isDeadline(i2); s2 && (b2 == b && j < i || b2 != b && b2.Dominates(b)) {
+							own = true
+						}
+					}
+				}
+				if !own && bareWrite == "" {
+					bareWrite = c.P.RelPos(ins.Pos())
+				}
+			}
+		}
+	}
 	n, nBad := 0, 0
 	for _, fn := range c.RepoFuncs("service") {
 		for _, b := range fn.Blocks {
 			for i, ins := range b.Instrs {
 				set, clears := isDeadline(ins)
-				if !set || clears {
+				if !set || clears || bareWrite == "" {
 					continue
 				}
 				n++
@@ -1066,7 +1093,7 @@ func (c *Ctx) noLingeringWriteDeadline(rule string) {
 				st, d := report.Discharged, ""
 				if bad != "" {
 					nBad++
-					st, d = report.Violated, fmt.Sprintf("the write deadline installed here is still in force at %s: once it has passed every later write on this connection fails - replies to terminal traffic are not sent and commands without a timeout are never written", bad)
+					st, d = report.Violated, fmt.Sprintf("the write deadline installed here is still in force at %s: once it has passed every later write that does not set a deadline of its own (e.g. %s) fails - replies to terminal traffic are not sent and commands without a timeout are never written", bad, bareWrite)
 				}
 				R.Add(rule, shortFn(fn)+" / "+c.constructOf(fn, ins), c.P.RelPos(ins.Pos()), st, d)
 			}
